@@ -53,16 +53,26 @@ def perprop():
 
 
 def benign():
-    rows = []
-    for d in sorted(glob.glob(os.path.join(ROOT, "seeded", "benign-*")), key=lambda x: int(x.rsplit("-", 1)[1])):
+    rows, total, silent, alarms, na = [], 0, 0, [], []
+    for d in sorted(glob.glob(os.path.join(ROOT, "seeded", "benign-*"))):
         r = os.path.join(d, "result.json")
         if not os.path.exists(r):
             continue
         m = json.load(open(r))
         n = len(m.get("checks", {}))
         fa = m.get("false_alarms", [])
-        rows.append(f"{os.path.basename(d)}: {n - len(fa)}/{n} checks silent" + (f" (ALARM: {', '.join(fa)})" if fa else ""))
-    return "; ".join(rows) if rows else "not run yet"
+        if m.get("error") or not n:
+            na.append(os.path.basename(d))
+            continue
+        total += n; silent += n - len(fa)
+        if fa:
+            alarms.append(f"{os.path.basename(d)}: {', '.join(fa)}")
+        rows.append(os.path.basename(d))
+    if not rows:
+        return "not run yet"
+    return (f"{len(rows)} patches, {total} check runs (every patch against all 20 quick checks), {silent} silent"
+            + (f"; ALARMS: {'; '.join(alarms)}" if alarms else ", no alarm")
+            + (f"; {len(na)} further patches ({', '.join(na)}) were written against an earlier tree and no longer apply after the later `fix:` commits" if na else ""))
 
 
 if __name__ == "__main__":
